@@ -13,18 +13,20 @@ EXPLANATION = (
     "Interval/sign analysis with guard refinement of the values returned by stepsize_initialisers.dt0 and dt0_adaptive "
     "(vector field opaque): every denominator is proven non-zero in the np.where branch that selects it and the returned "
     "step is proven strictly positive for every initial value and vector-field value (norms are only known to be >= 0), "
-    "under the stated parameter assumptions; plus guard and wiring checks of the two-stage heuristic."
+    "under the stated parameter assumptions; guard and wiring checks of the two-stage heuristic; and a homogeneity typing of dt0_adaptive "
+    "in the unit of the state (y0, f(.), atol of degree 1): every +, -, max, min, comparison and selection combines equal degrees and the "
+    "returned step is unit-free, i.e. all norms are tolerance-scaled as in Hairer-Norsett-Wanner II.4 (invariance under badly scaled states)."
 )
 LEVEL = "other"
-TECHNIQUE = "abstract interpretation over the AST: sign/interval analysis with disjunctive guard refinement at np.where, must-pass-through guard tracking, value-numbering normal form"
+TECHNIQUE = "abstract interpretation over the AST: sign/interval analysis with disjunctive guard refinement at np.where, must-pass-through guard tracking, value-numbering normal form, homogeneity-degree (unit) typing"
 LEVEL_TEXT = (
     "Positivity and non-zero denominators are derived for all inputs at once from the sign lattice (norm >= 0, nugget/atol/scale > 0), "
     "including u0 = 0 and f(u0) = 0, which the tests never sample."
 )
 LEVEL_NOTE = (
     "Assumes atol > 0, rtol >= 0, scale > 0, nugget > 0, error_contraction_rate >= 1 and finite inputs (no overflow reasoning: "
-    "finiteness for 1e300-sized states, agreement with an independent Hairer-Norsett-Wanner implementation and 'a solve started "
-    "with it finishes' are not decided).  linalg.vector_norm >= 0 is trusted."
+    "finiteness for 1e300-sized states and 'a solve started with it finishes' are not decided; of the agreement with an independent "
+    "Hairer-Norsett-Wanner implementation only the necessary conditions 'two-stage wiring' and 'every norm tolerance-scaled' are decided, not the constants).  linalg.vector_norm >= 0 is trusted."
 )
 
 
@@ -67,11 +69,129 @@ def check_denominators(term, bb: B.Bounds, rule, construct, where, seen=None, ct
     return results
 
 
+class Hom:
+    """Degree of homogeneity in the unit of the state (y -> c*y, f -> c*f, atol -> c*atol leaves the heuristic's step unchanged).
+
+    deg(t) is an integer/fraction, BOOL for truth values, or None when unknown; ``errors`` collects the constructs that
+    combine quantities of different degree (an absolute constant compared with an unscaled norm, max of a scaled and an unscaled norm, ...).
+    """
+
+    BOOL = "bool"
+
+    def __init__(self, seeds):
+        self.seeds = dict(seeds)  # term -> degree
+        self.memo = {}
+        self.errors = []  # (term, message)
+        self.unknown = []
+
+    def deg(self, t):
+        if not isinstance(t, T.Term):
+            if isinstance(t, bool):
+                return self.BOOL
+            if isinstance(t, (int, float)):
+                return "any" if t == 0 else 0
+            self.unknown.append(repr(t)[:60])
+            return None
+        if t.uid in self.memo:
+            return self.memo[t.uid]
+        d = self._deg(t)
+        self.memo[t.uid] = d
+        return d
+
+    def same(self, t, ds, what):
+        ds_ = [d for d in ds if d != "any"]
+        if any(d is None for d in ds_):
+            return None
+        if any(d == self.BOOL for d in ds_):
+            self.errors.append((t, f"{what} of a truth value"))
+            return None
+        if not ds_:
+            return "any"
+        if any(d != ds_[0] for d in ds_):
+            self.errors.append((t, f"{what} combines quantities of degree {ds_} in the state unit: {T.show(t, 3)}"))
+            return None
+        return ds_[0]
+
+    def _deg(self, t):
+        from fractions import Fraction
+
+        if t in self.seeds:
+            return self.seeds[t]
+        op, a = t.op, t.args
+        if op == "atom":
+            self.unknown.append(T.show(t, 2))
+            return None
+        if op in ("add", "sub", "np.maximum", "np.minimum"):
+            return self.same(t, [self.deg(x) for x in a], op)
+        if op in ("lt", "le", "gt", "ge", "eq", "ne"):
+            self.same(t, [self.deg(x) for x in a], f"comparison {op}")
+            return self.BOOL
+        if op in ("and", "or", "not", "np.logical_and", "np.logical_or", "np.logical_not"):
+            for x in a:
+                self.deg(x)
+            return self.BOOL
+        if op in ("np.where", "ite"):
+            self.deg(a[0])
+            return self.same(t, [self.deg(a[1]), self.deg(a[2])], "selection")
+        if op in ("mul", "div"):
+            ds = [self.deg(x) for x in a]
+            if any(d is None or d == self.BOOL for d in ds):
+                return None
+            if op == "mul":
+                if "any" in ds:
+                    return "any"
+                return sum(ds)
+            if ds[0] == "any":
+                return "any"
+            if ds[1] == "any":
+                return None
+            return ds[0] - ds[1]
+        if op == "neg":
+            return self.deg(a[0])
+        if op == "pow":
+            db, de = self.deg(a[0]), self.deg(a[1])
+            if de not in (0, "any"):
+                if de is not None:
+                    self.errors.append((t, f"exponent of degree {de} in the state unit: {T.show(a[1], 3)}"))
+                return None
+            if db in (0, "any", None):
+                return db
+            if isinstance(a[1], (int, float)):
+                return db * Fraction(a[1]).limit_denominator(64)
+            self.errors.append((t, f"symbolic power of a quantity of degree {db} in the state unit: {T.show(t, 3)}"))
+            return None
+        if op in ("np.abs", "linalg.vector_norm", "tree.ravel", "np.sqrt_sq", "np.asarray", "np.squeeze", "np.reshape", "np.mean", "np.sum", "np.max", "np.amax"):
+            return self.deg(a[0])
+        if op == "np.sqrt":
+            d = self.deg(a[0])
+            return d if d in (None, "any") else Fraction(d) / 2
+        if op == "call" and isinstance(a[0], T.Term) and a[0].op == "unravel_of":
+            return self.deg(a[1])
+        if op == "getitem":
+            return self.deg(a[0])
+        if op == "mcall" and len(a) >= 2 and a[1] == "vector_field":
+            jc = t.kwargs.get("jet_coords")
+            ds = [self.deg(x) for x in jc] if isinstance(jc, (tuple, list)) else [None]
+            if any(d is None for d in ds):
+                return None
+            if any(d != 1 for d in ds):
+                self.errors.append((t, f"vector field evaluated at a quantity of degree {ds} in the state unit (a state has degree 1)"))
+                return None
+            tt = t.kwargs.get("t")
+            if tt is not None and self.deg(tt) not in (0, "any"):
+                self.errors.append((t, f"vector field evaluated at a time of degree {self.deg(tt)} in the state unit"))
+            return 1
+        self.unknown.append(f"op {op}")
+        return None
+
+
 def run(chk, S: Session):
     chk.assume("atol > 0, rtol >= 0, scale > 0, nugget > 0, error_contraction_rate >= 1, finite inputs")
     chk.trust("linalg.vector_norm(x) >= 0", "np.where(c, a, b) selects a where c holds and b elsewhere", "np.abs(x) >= 0")
     r1 = chk.rule("R-C18-1", "returned step > 0 and every denominator non-zero on the branch that selects it", floor=6)
     r2 = chk.rule("R-C18-2", "guards (jet-lifted fields, several initial values) and wiring of the second stage", floor=5)
+    r3 = chk.rule("R-C18-3", "the tolerance-aware heuristic is homogeneous of degree 0 in the unit of the state (all norms tolerance-scaled): "
+                  "every +, -, max, min, comparison and selection combines equal degrees", floor=8)
     m = S.p.module(STEPINIT)
     for fname in ("dt0", "dt0_adaptive"):
         if fname not in m.functions:
@@ -142,6 +262,20 @@ def run(chk, S: Session):
             ok = arg is not None and nf.add(nf.norm(arg), nf.norm(y0), -1) == nf.mul(dt_first, nf.norm(f0)) and bool(dt_first)
             detail = f"second evaluation at state {T.show(arg, 4)}, time {T.show(tt, 4)}"
     r2.require(ok, "dt0_adaptive second stage", "f evaluated at (y0 + dt0*f0, t0 + dt0) with the same dt0", detail, where)
+    # homogeneity in the state unit: y0, f(.) and atol carry the unit of the state; rtol, the rate, times and literals do not.
+    # Hairer-Norsett-Wanner II.4 measures y0, f0 and f1 - f0 in the norm scaled by sc = atol + |y0| rtol, so the step is unchanged by y -> c*y.
+    hom = Hom({T.mk("tree.ravel", (A("y0"),)): 1, A("y0"): 1, atol: 1, rtol: 0, rate: 0, t0: 0})
+    d_out = hom.deg(out)
+    n_checked = sum(1 for t in T.subterms(out) if isinstance(t, T.Term) and t.op in ("add", "sub", "np.maximum", "np.minimum", "lt", "le", "gt", "ge", "np.where", "ite", "pow"))
+    bad = {id(t) for t, _ in hom.errors}
+    for t in T.subterms(out):
+        if isinstance(t, T.Term) and t.op in ("add", "sub", "np.maximum", "np.minimum", "lt", "le", "gt", "ge", "np.where", "ite", "pow") and id(t) not in bad:
+            d = hom.memo.get(t.uid)
+            r3.require(True if (d is not None) else None, f"dt0_adaptive {t.op} {T.show(t, 2)}", f"operands agree, degree {d}", f"degree not derived ({hom.unknown[:3]})", where_of(t, where))
+    for t, msg in hom.errors:
+        r3.fail(f"dt0_adaptive homogeneity at {t.op}", msg + " -- the proposal changes when the problem is rescaled (y, f, atol) -> (c y, c f, c atol)", where_of(t, where))
+    r3.require(True if d_out in (0,) else (None if d_out is None else False), "dt0_adaptive returned step is free of the state unit", f"degree {d_out}",
+               f"returned step has degree {d_out} in the state unit" + (f" (not derived: {hom.unknown[:3]})" if d_out is None else ""), where)
     # several initial values are rejected
     it2 = S.interp()
     f2 = it2.function_value(f"{STEPINIT}.dt0_adaptive")
